@@ -101,6 +101,34 @@ class ForeignMonitor:
         eng.check('C03.temp-dir-left', not w.tmp_leftovers(), self.sig + (what,))
 
 
+def _mid_build_plant(eng, w, mon, P, si):
+    """A foreign file appears while the build is running (between two API calls of the user program, at one of the
+    program's probe points): the point is a hole, the path comes from P['plant_paths'].  The same event is replayed at the
+    same point of the reference run.  The planted file joins the monitor's baseline."""
+    rel = P['plant_paths'][eng.choose('plantp%d' % si, len(P['plant_paths']))]
+    p = w.p(rel)
+    cid, mt = eng.fresh_int('plantcid%d' % si), eng.fresh_int('plantmt%d' % si, 0, 2 ** 62)
+    st = {'where': None, 'n': 0}
+
+    def probe(which, b, where):
+        if which == 'impl':
+            st['n'] += 1
+            if st['where'] is not None or st['n'] > P.get('plant_events', 8) or p in mon.managed:
+                return
+            if not w.fs.is_kind(posixpath.dirname(p), DIR) or not w.fs.is_kind(p, ABSENT):
+                return
+            if eng.choose('plant-here', 2) == 0:
+                return
+            st['where'] = where
+            w.fs.add_file(p, cid, mt)
+            mon.pre[p] = w.fs.snapshot(w.root)[p]
+            eng.path_info['planted'] = [rel, where]
+            eng.witness('planted-during-build')
+        elif where == st['where'] and w.ref.is_kind(posixpath.dirname(p), DIR) and w.ref.is_kind(p, ABSENT):
+            w.ref.add_file(p, cid, mt)
+    return probe
+
+
 def _role(w, p):
     if p.startswith(w.root + '/'):
         return w.rel(p)
@@ -129,7 +157,10 @@ def run_history(eng, fam, P, prop):
             if step == 'B' or step == 'F':
                 nb += 1
                 crash = pick_crash(eng, prog) if step == 'F' else None
-                impl, ref = d.build(prog, crash=crash)
+                probe = None
+                if P.get('midplant') and prop == 'C03' and nb >= 2:
+                    probe = _mid_build_plant(eng, w, mon, P, si)
+                impl, ref = d.build(prog, crash=crash, probe=probe)
                 if mon is not None:
                     mon.finish('build-ok' if impl[0] == 'ok' else 'build-raised')
                     mon = None
